@@ -396,6 +396,15 @@ class Pipeline:
         self.pres = [I.mk(I.PreProcessor, c) for c in pre_cfgs]
         self.posts = [I.mk(I.PostProcessor, c) for c in post_cfgs]
 
+    @classmethod
+    def of_objects(cls, I, comp, pres, posts, pre_ids, post_ids):
+        """from objects built elsewhere; the model's terms name processors by the number of their configuration tree"""
+        self = cls.__new__(cls)
+        self.I, self.comp, self.pres, self.posts = I, comp, list(pres), list(posts)
+        self.pre_by_id = dict(zip(pre_ids, pres))
+        self.post_by_id = dict(zip(post_ids, posts))
+        return self
+
     def compute(self, x):
         if self.comp is None:
             return x[:, None]
@@ -441,6 +450,130 @@ class Pipeline:
         return tables
 
 
+class CfgDB:
+    """What the environment of a tool does with each configuration argument: open(),
+    the YAML loader (ruamel, the one the tool uses), isinstance/iteration, and the
+    library's alias factories.  Rendered as the tables of coq/C09/Sym.v (cfgdb)."""
+
+    def __init__(self, I):
+        from ruamel.yaml import YAML
+
+        self.I, self.YAML = I, YAML
+        self.files, self.loads, self.trees, self.ids = {}, {}, [], {}
+        self.built = {"comp": {}, "pre": {}, "post": {}}
+
+    def arg(self, s):
+        """register an argument string; -> tree number or None (the loader raises)"""
+        text = s
+        try:
+            with open(s) as f:
+                text = f.read()
+            self.files[s] = text
+        except OSError:
+            pass
+        if text not in self.loads:
+            try:
+                with warnings.catch_warnings():
+                    warnings.simplefilter("ignore")
+                    tree = self.YAML(typ="safe").load(text)
+                self.loads[text] = self.tid(tree)
+            except Exception:
+                self.loads[text] = None
+        return self.loads[text]
+
+    def tid(self, tree):
+        key = repr((type(tree).__name__, json.dumps(tree, sort_keys=True, default=repr)))
+        if key not in self.ids:
+            self.ids[key] = len(self.trees)
+            self.trees.append(tree)
+        return self.ids[key]
+
+    def shape(self, t):
+        tree = self.trees[t]
+        if isinstance(tree, dict):
+            return "ShDict", None
+        if isinstance(tree, (list, tuple, str)):
+            return "ShSeq", [self.tid(x) for x in tree]
+        return "ShNotIterable", None
+
+    def build(self, kind, t):
+        """-> ('Built', obj) | ('BuildValueError', None) | ('BuildOtherError', None), by the library's factory"""
+        if t not in self.built[kind]:
+            base = {"comp": self.I.FrameComputer, "pre": self.I.PreProcessor, "post": self.I.PostProcessor}[kind]
+            try:
+                with warnings.catch_warnings():
+                    warnings.simplefilter("ignore")
+                    self.built[kind][t] = ("Built", self.I.mk(base, self.trees[t]))
+            except ValueError:
+                self.built[kind][t] = ("BuildValueError", None)
+            except Exception:
+                self.built[kind][t] = ("BuildOtherError", None)
+        return self.built[kind][t]
+
+    def elements(self, t):
+        """trees of the elements of a --preprocess / --postprocess argument (None: not iterable / absent)"""
+        if t is None:
+            return None
+        sh, el = self.shape(t)
+        return [t] if sh == "ShDict" else el
+
+    def coq(self, comp_term, pre_term, post_term):
+        """comp_term(obj) etc. render a built object as a Sym.v record"""
+        # shapes of every tree reachable (registering elements may add trees)
+        shapes, i = [], 0
+        while i < len(self.trees):
+            sh, el = self.shape(i)
+            shapes.append("(%d, %s)" % (i, sh if el is None else "ShSeq %s" % C.zlist(el)))
+            i += 1
+        def tab(kind, render):
+            out = []
+            for t, (tag, obj) in sorted(self.built[kind].items()):
+                out.append("(%d, %s)" % (t, "Built %s" % render(t, obj) if tag == "Built" else tag))
+            return "[" + "; ".join(out) + "]"
+        files = "[" + "; ".join("(%s, %s)" % (slit(k), slit(v)) for k, v in self.files.items()) + "]"
+        loads = "[" + "; ".join("(%s, %s)" % (slit(k), optz(v)) for k, v in self.loads.items()) + "]"
+        return "(mkDB %s %s [%s] %s %s %s)" % (files, loads, "; ".join(shapes), tab("comp", comp_term), tab("pre", pre_term), tab("post", post_term))
+
+    def pipeline(self, comp_t, pre_t, post_t, no_comp=False):
+        """the objects the tool will end up with, when every factory call succeeds (else None)"""
+        comp = None
+        if not no_comp:
+            if comp_t is None:
+                return None
+            tag, comp = self.build("comp", comp_t)
+            if tag != "Built":
+                return None
+        pres, posts = [], []
+        for kind, t, acc in (("pre", pre_t, pres), ("post", post_t, posts)):
+            if t == "absent":
+                continue
+            el = self.elements(t)
+            if el is None:
+                return None
+            for e in el:
+                tag, obj = self.build(kind, e)
+                if tag != "Built":
+                    return None
+                acc.append((e, obj))
+        return Pipeline.of_objects(self.I, comp, [o for _, o in pres], [o for _, o in posts], [e for e, _ in pres], [e for e, _ in posts])
+
+
+def cfg_args_of(args, positional):
+    """the configuration strings of an argument list: (computer | None, preprocess | None, postprocess | None)"""
+    comp = args[positional] if positional is not None else None
+    pre = post = None
+    for i, a in enumerate(args):
+        if a.startswith("--preprocess="):
+            pre = a[len("--preprocess="):]
+        elif a == "--preprocess":
+            pre = args[i + 1]
+        elif a.startswith("--postprocess="):
+            post = a[len("--postprocess="):]
+        elif a == "--postprocess":
+            post = args[i + 1]
+    return comp, pre, post
+
+
 class TermEval:
     """Evaluate the model's terms with the library."""
 
@@ -459,7 +592,7 @@ class TermEval:
             self.I.torch.set_rng_state(st)
 
     def _apply_pre(self, p, x):
-        pre = self.pipe.pres[p]
+        pre = self.pipe.pre_by_id[p] if hasattr(self.pipe, "pre_by_id") else self.pipe.pres[p]
         if self.mode == "pt" and isinstance(pre, self.I.Dither):
             # the library's Dither with torch's generator as the noise source
             t = self.I.torch
@@ -508,7 +641,8 @@ class TermEval:
         if t[0] == "FColumn":
             return self.s(t[1])[:, None]
         if t[0] == "FPost":
-            return self.pipe.posts[t[1]].apply(self.f(t[2]))
+            q = self.pipe.post_by_id[t[1]] if hasattr(self.pipe, "post_by_id") else self.pipe.posts[t[1]]
+            return q.apply(self.f(t[2]))
         if t[0] == "FCast":
             return self.f(t[1]).astype(np.float32)
         raise ValueError(t)
@@ -561,7 +695,7 @@ def kaldi_gen_case(ctx, I, idx):
         r.shuffle(utts)  # the table need not be sorted (scp without ,s)
     u = r.random()
     if multi:
-        channel = r.choice([0, 1, 1, 2, None, -2 if u < 0.1 else 0])
+        channel = r.choice([0, 1, 1, 2, None, -2 if u < 0.1 else 0, r.choice(utts)["nchan"], r.choice(utts)["nchan"] - 1])
     else:
         channel = r.choice([None, None, None, 0, 1 if u < 0.3 else None])
     min_dur = None
@@ -776,7 +910,7 @@ def torch_gen_case(ctx, I, idx):
         if r.random() < 0.7:  # mostly a channel every matrix has
             channel = r.randrange(min(u_["nchan"] for u_ in utts))
         else:
-            channel = r.choice([0, 1, 2, None, -2 if r.random() < 0.3 else 1])
+            channel = r.choice([0, 1, 2, None, -2 if r.random() < 0.3 else 1, r.choice(utts)["nchan"], r.choice(utts)["nchan"]])
     else:
         channel = r.choice([None, None, None, None, 0 if r.random() < 0.5 else None])
     manifest = None
@@ -978,15 +1112,17 @@ def torch_direct_spec(I, case, view, pipe, seed):
             return exp, "unreadable"
         if a.ndim == 1:
             if o_ch != -1:
-                return exp, "domain"
+                return exp, "channel-complaint"  # "Channel specified as .. but signal has shape .."
             x = a
         else:
             if o_ch == -1:
                 if a.shape[0] > 1:
-                    return exp, "domain"
+                    return exp, "channel-complaint"  # "Channel is not specified but signal has shape .."
                 x = a[0]
             elif 0 <= o_ch < a.shape[0]:
                 x = a[o_ch]
+            elif o_ch >= a.shape[0]:
+                return exp, "channel-complaint"
             else:
                 return exp, "domain"
         x = np.asarray(x, dtype=np.float64)
@@ -1215,6 +1351,10 @@ def check_torch(ctx, I, ncases):
             elif status == "library-raises" and obs["kind"] != "exc":
                 ctx.fail("the library pipeline raises on an utterance but signals-to-torch-feat-dir finished",
                          dict(case=case, argv=args, observed=summ(obs)), kind="impl")
+            elif status == "channel-complaint" and not (obs["kind"] == "exc" and obs["exc"] == "ValueError"):
+                # a signal that does not have the requested channel is refused with the tool's own ValueError
+                ctx.fail("signals-to-torch-feat-dir: a signal without the requested channel must be refused with ValueError; got: %s"
+                         % summ(obs)["result"], dict(case=case, argv=args, observed=summ(obs)), kind="impl")
         ctx.case(dict(tool="torch", computer=case["computer"], pre=case["pre"], post=case["post"], channel=case["channel"],
                       seed=case["seed"], manifest=case["manifest"], mapfmt=case["mapfmt"], bad=case["bad"],
                       utts=[(u["shape"], u["nchan"], u["n"], u["kind"]) for u in case["utts"]]),
@@ -1284,6 +1424,276 @@ def check_torch(ctx, I, ncases):
         if why:
             ctx.fail("signals-to-torch-feat-dir disagrees with its model: " + why,
                      dict(case=case, argv=args, observed=summ(obs), model=repr(ans)[:600]), kind="correspondence")
+
+
+def merged_post_tables(pipe, counts, post_ids):
+    tabs = {}
+    for t, tab in zip(post_ids, pipe.post_tables(counts)):
+        tabs.setdefault(t, {}).update(tab)
+    return tabs
+
+
+def register_custom(I):
+    """a pre-processor the library knows nothing about: fine for the kaldi tool, no PyTorch port"""
+    if not hasattr(I, "VerifGain"):
+        class VerifGain(I.PreProcessor):
+            aliases = {"verif_gain"}
+
+            def __init__(self, gain=2.0):
+                self.gain = gain
+
+            def apply(self, signal, axis=-1, in_place=False):
+                return signal * self.gain
+
+        I.VerifGain = VerifGain
+
+
+K_VARIANTS = [None, None, None, "bad-syntax", "unknown-alias", "path-missing", "pre-unknown", "pre-string", "pre-number",
+              "post-dict", "post-bad-args", "post-unknown", "no-table", "unwritable", "custom-pre", "pre-dict"]
+T_VARIANTS = [None, None, "bad-syntax", "unknown-alias", "pre-unknown", "pre-number", "post-dict", "custom-pre", "post-unknown",
+              "pre-dict"]
+
+
+def apply_variant(r, variant, args, comp_pos):
+    """rewrite the configuration arguments of an argument list"""
+    args = [a for a in args]
+
+    def drop(opt):
+        out, skip = [], False
+        for a in args:
+            if skip:
+                skip = False
+                continue
+            if a == opt:
+                skip = True
+                continue
+            if a.startswith(opt + "="):
+                continue
+            out.append(a)
+        return out
+
+    if variant == "bad-syntax":
+        args[comp_pos] = r.choice(["{unclosed", "[1, 2", "a: b: c"])
+    elif variant == "unknown-alias":
+        args[comp_pos] = r.choice(["nosuchcomputer", '{"name": "nosuch"}'])
+    elif variant == "path-missing":
+        args[comp_pos] = "/nonexistent/dir/computer.json"
+    elif variant in ("pre-unknown", "pre-string", "pre-number", "custom-pre", "pre-dict"):
+        args = drop("--preprocess")
+        val = {"pre-unknown": '["nosuchpre"]', "pre-string": "dither", "pre-number": r.choice(["3", "null", "2.5"]),
+               "custom-pre": r.choice(['["verif_gain"]', '[{"name": "verif_gain", "gain": 0.5}, "preemph"]']),
+               "pre-dict": '{"name": "preemphasize", "coeff": 0.9}'}[variant]
+        args += ["--preprocess", val]
+    elif variant in ("post-dict", "post-bad-args", "post-unknown"):
+        args = drop("--postprocess")
+        val = {"post-dict": '{"name": "deltas", "num_deltas": 1}', "post-bad-args": '[{"name": "deltas"}]',
+               "post-unknown": '[{"name": "nope"}]'}[variant]
+        args += ["--postprocess=" + val]
+    return args
+
+
+def check_kaldi_entry(ctx, I, ncases):
+    """the whole entry point, argument handling included (kaldi_main of coq/C09/Tools.v)"""
+    np = I.np
+    register_custom(I)
+    d = os.path.join(RUN, "kaldi-entry")
+    r = ctx.rng
+    runs, bodies = [], []
+    for idx in range(ncases):
+        case = kaldi_gen_case(ctx, I, 100000 + idx)
+        if isinstance(case["min_duration"], (tuple, list)):
+            case["min_duration"] = None
+        variant = r.choice(K_VARIANTS)
+        case["variant"] = variant
+        kaldi_materialise(I, case, d)
+        args = apply_variant(r, variant, kaldi_args(case, d), 2)
+        wav_ok, writable = True, True
+        if variant == "no-table":
+            args[0] = "scp:" + os.path.join(d, "missing.scp")
+            wav_ok = False
+        elif variant == "unwritable":
+            args[1] = "ark:" + os.path.join(d, "no", "such", "dir", "feat.ark")
+            writable = False
+        db = CfgDB(I)
+        comp_s, pre_s, post_s = cfg_args_of(args, 2)
+        ct = db.arg(comp_s)
+        pt = db.arg(pre_s) if pre_s is not None else "absent"
+        qt = db.arg(post_s) if post_s is not None else "absent"
+        parsed = ct is not None and pt is not None and qt is not None
+        pipe = db.pipeline(ct, pt, qt) if parsed else None
+        view = kaldi_table_view(I, d)
+        obs = kaldi_run_tool(I, case, d, args, case["init_seed"])
+        ctx.count("kaldi-entry:" + str(variant))
+        ctx.count("kaldi-entry:" + ("exc:" + obs.get("exc", "") if obs["kind"] == "exc" else "exit:%s" % obs.get("code")))
+        ctx.case(dict(tool="kaldi-entry", variant=variant, argv_cfg=[comp_s, pre_s, post_s], channel=case["channel"],
+                      seed=case["seed"], utts=[(u["nchan"], u["n"], u["rate"]) for u in case["utts"]]), nontrivial=bool(obs["stored"]))
+        # tables for the model
+        frames, counts = [], set()
+        if pipe is not None:
+            for u, (k, buff, sf, dur) in enumerate(view):
+                nf = pipe.frames_for_len(buff.shape[1])
+                counts.add(nf)
+                frames += [(u, c, nf) for c in range(buff.shape[0])]
+            post_ids = [t for t in pipe.post_by_id]
+            qtab = merged_post_tables(pipe, counts, [e for e in (db.elements(qt) if qt != "absent" else [])])
+        else:
+            qtab = {}
+        tag, cobj = db.build("comp", ct) if (parsed and ct is not None) else ("none", None)
+        rate = cobj.bank.sampling_rate if tag == "Built" else 1
+        dbterm = db.coq(lambda t, o: "(mkSC %d %s %s true)" % (t, qlit(rate), C.zlist(frames)),
+                        lambda t, o: "(mkSP %d true)" % t,
+                        lambda t, o: "(mkSQ %d [%s])" % (t, "; ".join("(%d, %s)" % (a, optz(b)) for a, b in sorted(qtab.get(t, {}).items()))))
+        o_ch = -1 if case["channel"] is None else case["channel"]
+        mind = 0.0 if case["min_duration"] is None else case["min_duration"]
+        descs = "[" + "; ".join(
+            "(%d, %s, %s, %s, %s)" % (u, slit(k), C.zlist([int(buff.shape[1])] * buff.shape[0]), qlit(sf), qlit(dur))
+            for u, (k, buff, sf, dur) in enumerate(view)) + "]"
+        ka = "(mkKA %s %s %s (mkKO %s %s %s))" % (
+            slit(comp_s), "None" if pre_s is None else "(Some %s)" % slit(pre_s),
+            "None" if post_s is None else "(Some %s)" % slit(post_s), qlit(mind), C.zlist(o_ch), optz(case["seed"]))
+        name = "ke%d" % idx
+        bodies.append("Definition %s := kaldi_main_run %s %s %s %s.\nEval vm_compute in %s.\n" % (
+            name, dbterm, ka, ("(Some %s)" % descs) if wav_ok else "None", "true" if writable else "false", name))
+        np.random.seed(case["init_seed"])
+        runs.append((case, args, obs, view, pipe, np.random.get_state()))
+    answers = eval_cases(ctx, bodies, "kentry")
+    for (case, args, obs, view, pipe, init_state), ans in zip(runs, answers):
+        if ans is None:
+            continue
+        why = None
+        ids = [k for k, _, _, _ in view]
+        if ans[0] == "ObsExit":
+            if obs["kind"] != "exit" or obs["code"] != ans[1]:
+                why = "model: exit status %d; tool: %s" % (ans[1], summ(obs)["result"])
+        elif not exc_matches(ans[1][0] if isinstance(ans[1], tuple) else ans[1], obs):
+            why = "model: raises %s; tool: %s" % (ans[1], summ(obs)["result"])
+        if why is None and obs["kind"] == "exit":
+            if ans[2] and pipe is None:
+                why = "model stores entries although a factory call fails"
+            else:
+                ev = TermEval(I, pipe, [b for _, b, _, _ in view], "np", init_state)
+                try:
+                    exp = [(ids[u], ev.f(t)) for (u, t) in ans[2]]
+                    why = compare_stored(I, ctx, case, "table vs model", obs["stored"], exp, 1e-6, 1e-6, False)
+                except Exception as e:  # noqa: BLE001
+                    why = "a term of the model cannot be evaluated with the library: %s: %s" % (type(e).__name__, e)
+        if why:
+            ctx.fail("compute-feats-from-kaldi-tables (entry point) disagrees with its model: " + why,
+                     dict(case=case, argv=args, observed=summ(obs), model=repr(ans)[:600]), kind="correspondence")
+        else:
+            ctx.cov["traces_validated_against_impl"] += 1
+
+
+def check_torch_entry(ctx, I, ncases):
+    """the whole entry point, argument handling included (torch_main of coq/C09/Tools.v)"""
+    np, torch = I.np, I.torch
+    register_custom(I)
+    from pydrobert.speech.pre import Preemphasize
+
+    d = os.path.join(RUN, "torch-entry")
+    r = ctx.rng
+    runs, bodies = [], []
+    for idx in range(ncases):
+        case = torch_gen_case(ctx, I, 100000 + idx)
+        case["bad"] = case["bad"] if r.random() < 0.5 else None
+        variant = r.choice(T_VARIANTS) if case["computer"] is not None else r.choice([None, "pre-unknown", "custom-pre", "post-dict"])
+        case["variant"] = variant
+        sigs, lines = torch_materialise(I, case, d)
+        comp_pos = 1 if case["computer"] is not None else None
+        args = torch_args(case, d)
+        if variant in ("bad-syntax", "unknown-alias") and comp_pos is None:
+            variant = case["variant"] = None
+        args = apply_variant(r, variant, args, comp_pos if comp_pos is not None else 0)
+        db = CfgDB(I)
+        comp_s, pre_s, post_s = cfg_args_of(args, comp_pos)
+        ct = db.arg(comp_s) if comp_s is not None else "absent"
+        pt = db.arg(pre_s) if pre_s is not None else "absent"
+        qt = db.arg(post_s) if post_s is not None else "absent"
+        parsed = ct is not None and pt is not None and qt is not None
+        pipe = db.pipeline(None if ct == "absent" else ct, pt, qt, no_comp=(ct == "absent")) if parsed else None
+        view = torch_file_view(I, case, lines)
+        np.random.seed(case["init_seed"])
+        fresh = int(np.random.randint(np.iinfo(np.int32).max))
+        obs = torch_run_tool(I, case, d, args, case["init_seed"])
+        ctx.count("torch-entry:" + str(variant))
+        ctx.count("torch-entry:" + ("exc:" + obs.get("exc", "") if obs["kind"] == "exc" else "exit:%s" % obs.get("code")))
+        ctx.case(dict(tool="torch-entry", variant=variant, argv_cfg=[comp_s, pre_s, post_s], channel=case["channel"], seed=case["seed"],
+                      manifest=case["manifest"], bad=case["bad"], utts=[(u["shape"], u["nchan"], u["n"], u["kind"]) for u in case["utts"]]),
+                 nontrivial=bool(obs["disk"]))
+        frames, counts, files, seen, unum = [], set(), [], set(), {}
+        for (utt, path, a) in view:
+            if path in seen:
+                continue
+            seen.add(path)
+            u = unum.setdefault(path, len(unum))
+            if a is None:
+                files.append("(%s, (%d, None))" % (slit(path), u))
+                continue
+            n = a.shape[0] if a.ndim == 1 else a.shape[1]
+            nf = pipe.frames_for_len(n) if pipe is not None else 0
+            counts.add(nf)
+            if a.ndim == 1:
+                frames.append((u, -1, nf))
+                files.append("(%s, (%d, Some (inl %d)))" % (slit(path), u, n))
+            else:
+                frames += [(u, c, nf) for c in range(a.shape[0])]
+                files.append("(%s, (%d, Some (inr (%d, %d))))" % (slit(path), u, a.shape[0], n))
+        qtab = merged_post_tables(pipe, counts, [e for e in (db.elements(qt) if qt != "absent" else [])]) if pipe is not None else {}
+        dbterm = db.coq(lambda t, o: "(mkSC %d (1 # 1) %s true)" % (t, C.zlist(frames)),
+                        lambda t, o: "(mkSP %d %s)" % (t, "true" if isinstance(o, (I.Dither, Preemphasize)) else "false"),
+                        lambda t, o: "(mkSQ %d [%s])" % (t, "; ".join("(%d, %s)" % (a, optz(b)) for a, b in sorted(qtab.get(t, {}).items()))))
+        with open(os.path.join(d, "map")) as mf:
+            text_lines = list(mf)
+        o_ch = -1 if case["channel"] is None else case["channel"]
+        mani = "None" if case["manifest"] is None else "(Some [%s])" % "; ".join(slit(x + "\n") for x in case["manifest"])
+        ta = "(mkTA [%s] %s %s %s %s %s %s %s %s)" % (
+            "; ".join(slit(x) for x in text_lines),
+            "None" if comp_s is None else "(Some %s)" % slit(comp_s),
+            "None" if pre_s is None else "(Some %s)" % slit(pre_s),
+            "None" if post_s is None else "(Some %s)" % slit(post_s),
+            C.zlist(o_ch), optz(case["seed"]), slit(case["prefix"]), slit(".pt" if case["suffix"] is None else case["suffix"]), mani)
+        name = "te%d" % idx
+        bodies.append("Definition %s := torch_main_run %s %s %s [%s].\nEval vm_compute in %s.\n" % (
+            name, dbterm, ta, C.zlist(fresh), "; ".join(files), name))
+        runs.append((case, args, obs, view, pipe, unum))
+    answers = eval_cases(ctx, bodies, "tentry")
+    for (case, args, obs, view, pipe, unum), ans in zip(runs, answers):
+        if ans is None:
+            continue
+        why = None
+        if ans[0] == "TObsExit":
+            if obs["kind"] != "exit" or obs["code"] != ans[1]:
+                why = "model: exit status %d; tool: %s" % (ans[1], summ(obs)["result"])
+        else:
+            e = ans[1][0] if isinstance(ans[1], tuple) else ans[1]
+            if not exc_matches(e, obs):
+                why = "model: raises %s; tool: %s" % (e, summ(obs)["result"])
+        if why is None:
+            want = {}
+            for fn, t in ans[2]:
+                want[fn] = t
+            if sorted(want) != sorted(obs["disk"]):
+                why = "model: files %r; tool: %r" % (sorted(want), sorted(obs["disk"]))
+            elif case["manifest"] is not None and obs["manifest_after"] != case["manifest"] + list(ans[3]):
+                why = "model: manifest gains %r; tool: manifest is %r" % (ans[3], obs["manifest_after"])
+            elif want:
+                sigs = {unum[path]: a for (utt, path, a) in view if path in unum and a is not None}
+                ev = TermEval(I, pipe, sigs, "pt", None)
+                for fn, t in want.items():
+                    try:
+                        m = ev.f(t)
+                    except Exception as e:  # noqa: BLE001
+                        why = "a term of the model cannot be evaluated with the library: %s: %s" % (type(e).__name__, e)
+                        break
+                    ok, w = close(np, obs["disk"][fn].numpy(), m, 2e-4, 2e-4, True)
+                    if not ok:
+                        why = "%s vs model: %s" % (fn, w)
+                        break
+        if why:
+            ctx.fail("signals-to-torch-feat-dir (entry point) disagrees with its model: " + why,
+                     dict(case=case, argv=args, observed=summ(obs), model=repr(ans)[:600]), kind="correspondence")
+        else:
+            ctx.cov["traces_validated_against_impl"] += 1
 
 
 def check_plans(ctx, I, n):
@@ -1406,8 +1816,10 @@ def run(ctx):
     ctx.can_eval = can_eval
     check_regressions(ctx, I)
     check_plans(ctx, I, ctx.scale(300, 3000))
-    check_kaldi(ctx, I, ctx.scale(110, 1500))
-    check_torch(ctx, I, ctx.scale(110, 1500))
+    check_kaldi(ctx, I, ctx.scale(100, 1500))
+    check_torch(ctx, I, ctx.scale(100, 1500))
+    check_kaldi_entry(ctx, I, ctx.scale(45, 500))
+    check_torch_entry(ctx, I, ctx.scale(45, 500))
     if pr is not None and not pr["ok"] and not [f for f in ctx.failures if not f["no_input"]]:
         ctx.log("search found no failing input on the implementation")
     ctx.assumptions += [
